@@ -46,7 +46,7 @@ func genC12(t *rapid.T) c12Case {
 	c := c12Case{Cfg: vlib.GenConfig(t, 4)}
 	c.Mode = rapid.SampledFrom([]string{"", "local", "local", "local", "remote-ok", "remote-unreachable"}).Draw(t, "mode")
 	c.Policy = rapid.SampledFrom([]string{"", "", "score >= 2", "score >= 3", "entropy >= 30"}).Draw(t, "policy")
-	c.Tmp = rapid.SampledFrom([]string{"", "", "", "dir", "file"}).Draw(t, "tmp")
+	c.Tmp = rapid.SampledFrom([]string{"", "", "", "dir", "file", "leftovers", "leftovers"}).Draw(t, "tmp")
 	if c.Mode == "remote-ok" {
 		c.Outage = rapid.SampledFrom([]int{0, 0, 2, 10, 11, 25}).Draw(t, "outage")
 	}
@@ -161,6 +161,22 @@ func runC12(c c12Case) string {
 	case "file":
 		os.WriteFile(filepath.Join(e.base, ".tmp"), []byte("not a directory"), 0o600)
 		vlib.Class("work-area-unusable(.tmp is a regular file)")
+	case "leftovers":
+		// what killed writers leave behind, under every name a writer might pick for its scratch file: harmless residue
+		os.Mkdir(filepath.Join(e.base, ".tmp"), 0o700)
+		for _, u := range c.Users {
+			for _, n := range []string{u.Name, u.Name + ".user", u.Name + ".admin", u.Name + ".tmp", "." + u.Name} {
+				os.WriteFile(filepath.Join(e.base, ".tmp", n), []byte("stale\n"), 0o600)
+			}
+		}
+		os.WriteFile(filepath.Join(e.base, ".tmp", "1234567890"), nil, 0o600)
+		vlib.Class("work-area-holds-leftovers-of-killed-writers")
+	}
+	leftovers := map[string]bool{}
+	if ents, err := os.ReadDir(filepath.Join(e.base, ".tmp")); err == nil {
+		for _, en := range ents {
+			leftovers[en.Name()] = true
+		}
 	}
 	pid := map[string]uint{}
 	for _, u := range c.Users {
@@ -188,8 +204,11 @@ func runC12(c c12Case) string {
 			return fmt.Sprintf("VIOLATION C12: [%s] after a login of %q its record is gone (a failed rewrite must leave the record untouched)", where, u.Name)
 		}
 		if t, ok := after[".tmp"]; ok && t.Mode.IsDir() {
-			if ents, _ := os.ReadDir(filepath.Join(env.base, ".tmp")); len(ents) > 0 {
-				return fmt.Sprintf("VIOLATION C12: [%s] temporary files left behind after upgrade: %v", where, ents)
+			ents, _ := os.ReadDir(filepath.Join(env.base, ".tmp"))
+			for _, en := range ents {
+				if env != e || !leftovers[en.Name()] {
+					return fmt.Sprintf("VIOLATION C12: [%s] temporary files left behind after upgrade: %v", where, ents)
+				}
 			}
 		}
 		b, a := before[rel], after[rel]
